@@ -51,12 +51,20 @@ import (
 	"sort"
 	"strings"
 	"sync"
+	"sync/atomic"
 	"syscall"
 	"time"
 
 	"github.com/grafana/cog/verifx/gschema"
 	"github.com/grafana/cog/verifx/vx"
 )
+
+// hangsSeen counts the hang verdicts of the run. Once a few have been seen the
+// tree under test obviously has a termination problem, and waiting 30 s for
+// each of the (possibly hundreds of) inputs reaching it only costs time: the
+// watchdog of the remaining requests is tightened to 10 s; candidates are
+// confirmed with the full 30 s, three times, in isolation.
+var hangsSeen atomic.Int64
 
 type best struct {
 	f     vx.Failure
@@ -72,7 +80,9 @@ type harness struct {
 	mu    sync.Mutex
 	kinds map[string]*best
 	hangs map[string]*best
-	outs  int64
+	// hangCands: per hang kind, the smallest candidate inputs
+	hangCands map[string][]*best
+	outs      int64
 	// reach: IR hash -> smallest document that loads into it
 	reach   map[string]*Case
 	samples map[string][]any
@@ -145,7 +155,21 @@ func (h *harness) sink(c *Case, outs []Out, hash string) {
 		}
 		m := h.kinds
 		if o.St == "hang" {
-			m = h.hangs
+			// hang verdicts are only candidates until confirmed in isolation:
+			// the three smallest inputs of each kind are kept
+			hangsSeen.Add(1)
+			l := append(h.hangCands[kind], &best{f: f, c: c, out: o})
+			sort.SliceStable(l, func(i, j int) bool {
+				if l[i].f.Size != l[j].f.Size {
+					return l[i].f.Size < l[j].f.Size
+				}
+				return l[i].f.Witness < l[j].f.Witness
+			})
+			if len(l) > 3 {
+				l = l[:3]
+			}
+			h.hangCands[kind] = l
+			continue
 		}
 		b := m[kind]
 		if b == nil {
@@ -247,7 +271,7 @@ func pipelineCases(part, format, name, doc string, extra map[string]string, size
 			// special shapes only
 			continue
 		}
-		if m.flagsOff && (strings.HasPrefix(name, "G:") || (strings.HasPrefix(name, "sdef/") || strings.HasPrefix(name, "xpkg/")) && !thoroughTier) {
+		if m.flagsOff && (strings.HasPrefix(name, "G:") || (strings.HasPrefix(name, "sdef/") || strings.HasPrefix(name, "xpkg/") || strings.HasPrefix(name, "enumunion/") || strings.HasPrefix(name, "refgraph/")) && !thoroughTier) {
 			continue
 		}
 		langs := programmingLanguagesBlock
@@ -272,6 +296,12 @@ func pipelineCases(part, format, name, doc string, extra map[string]string, size
 func thoroughOnlyShape(name string) bool {
 	if strings.HasPrefix(name, "xpkg/") {
 		return strings.HasSuffix(name, "/shared-first") || strings.HasSuffix(name, "/package-cycle")
+	}
+	if strings.HasPrefix(name, "enumunion/") {
+		return strings.HasSuffix(name, "@2020-12") || strings.Contains(name, "/typed-integer/") || strings.Contains(name, "/typed-array/")
+	}
+	if strings.HasPrefix(name, "refgraph/") {
+		return strings.HasPrefix(name, "refgraph/tail-3/") || strings.HasSuffix(name, "/required-field") || strings.HasSuffix(name, "/union-second")
 	}
 	for _, p := range []string{"sdef/ref-first/", "sdef/ref-middle-required/", "sdef/ref-first-required/", "sdef/named-middle/", "sdef/required-field/", "sdef/optfield/"} {
 		if strings.HasPrefix(name, p) {
@@ -456,7 +486,7 @@ func main() {
 	signal.Notify(sigc, syscall.SIGINT, syscall.SIGTERM)
 	go func() { <-sigc; cleanup(); os.Exit(2) }()
 
-	h := &harness{r: r, p: newPool(scratch), st: newStats(), kinds: map[string]*best{}, hangs: map[string]*best{}, reach: map[string]*Case{}, samples: map[string][]any{}}
+	h := &harness{r: r, p: newPool(scratch), st: newStats(), kinds: map[string]*best{}, hangs: map[string]*best{}, hangCands: map[string][]*best{}, reach: map[string]*Case{}, samples: map[string][]any{}}
 	if r.Replay != "" {
 		code := h.replay()
 		cleanup()
@@ -636,23 +666,34 @@ func main() {
 
 	// hang verdicts must reproduce three times in isolation
 	hangsConfirmed, hangsDropped := 0, 0
-	for _, k := range sortedKeys(h.hangs) {
-		b := h.hangs[k]
-		ok := true
-		// confirmation runs always get the full 30 s
-		confirm := *b.c
-		confirm.Req.TimeoutMS = 0
-		for i := 0; i < 3 && ok; i++ {
-			ok = false
-			for _, o := range h.p.single(&confirm) {
-				if o.St == "hang" {
-					ok = true
+	hangsSeen.Store(-1 << 40) // confirmation runs always get the full 30 s
+	var hangKinds []string
+	for k := range h.hangCands {
+		hangKinds = append(hangKinds, k)
+	}
+	sort.Strings(hangKinds)
+	for _, k := range hangKinds {
+		confirmed := false
+		for _, b := range h.hangCands[k] { // smallest first
+			ok := true
+			confirm := *b.c
+			confirm.Req.TimeoutMS = 0
+			for i := 0; i < 3 && ok; i++ {
+				ok = false
+				for _, o := range h.p.single(&confirm) {
+					if o.St == "hang" {
+						ok = true
+					}
 				}
 			}
+			if ok {
+				confirmed = true
+				r.Fail(b.f)
+				break
+			}
 		}
-		if ok {
+		if confirmed {
 			hangsConfirmed++
-			r.Fail(b.f)
 		} else {
 			hangsDropped++
 		}
